@@ -42,6 +42,7 @@ type Result struct {
 	OK        bool
 	Why       string
 	Sent      int      // number of source packets sent (ids 0..Sent-1, all sent in order)
+	ExtPadded int      // how many of them carried both a header extension and padding
 	SrcTid    []uint8  // tid of each source packet
 	SrcStart  []bool   // frame start (all frames are single packets here)
 	A, B      []Rx     // in arrival order, including retransmissions
@@ -54,6 +55,9 @@ type Result struct {
 }
 
 // Source rebuilds the packet the publisher sent under id.
+// ExtPadded tells whether source packet id was sent with both a header extension and padding.
+func ExtPadded(id int) bool { return id%11 == 3 }
+
 func (res Result) Source(id int) *rtp.Packet {
 	key := id%40 == 0
 	return vrtc.VP8Packet(res.Start+uint16(id), uint32(id)*3000, (res.PidStart+uint16(id))&0x7FFF, res.SrcTid[id], key, uint32(id), 20+id%50)
@@ -219,7 +223,22 @@ func Run(srv *vsrv.Server, name string, n int, r *rand.Rand) Result {
 		}
 		res.SrcTid = append(res.SrcTid, tid)
 		res.SrcStart = append(res.SrcStart, true)
-		tr.Local.WriteRTP(vrtc.VP8Packet(start+uint16(i), uint32(i)*3000, (pidStart+uint16(i))&0x7FFF, tid, key, uint32(i), 20+i%50))
+		pkt := vrtc.VP8Packet(start+uint16(i), uint32(i)*3000, (pidStart+uint16(i))&0x7FFF, tid, key, uint32(i), 20+i%50)
+		switch i % 11 {
+		case 3:
+			// a header extension and RTP padding on the way in (the server strips the former;
+			// the payload a receiver sees is the same)
+			pkt.Header.Extension, pkt.Header.ExtensionProfile = true, 0xBEDE
+			pkt.Header.SetExtension(5, []byte{0xAA})
+			pkt.Header.Padding, pkt.PaddingSize = true, byte(1+i%9)
+			res.ExtPadded++
+		case 7:
+			pkt.Header.Extension, pkt.Header.ExtensionProfile = true, 0xBEDE
+			pkt.Header.SetExtension(5, []byte{0xAA, 0xBB})
+		case 9:
+			pkt.Header.Padding, pkt.PaddingSize = true, byte(1+i%5)
+		}
+		tr.Local.WriteRTP(pkt)
 		if i == rembAt {
 			// a tiny REMB: the server must drop temporal layers for A (after its 1 s estimator interval)
 			if d := subA.Down(streamID); d != nil && d.PC != nil {
